@@ -3455,6 +3455,8 @@ impl SctpInner {
             if self.max_buffered_amount == 0 || flight + queued <= self.max_buffered_amount {
                 break;
             }
+            #[cfg(rustrtc_verif)]
+            crate::verif::probe("sctp", self.verif_inst(), "send.before_wait");
             self.flow_control_notify.notified().await;
         }
 
